@@ -248,5 +248,5 @@ PARTS = [
     Part("every-position", "enum", check, cases=position_cases, exhaustive=True),
     Part("length-boundaries", "enum", check, cases=boundary_cases, exhaustive=True),
     Part("random", "hyp", check, strategy=random_strategy,
-         examples={"quick": 1500, "thorough": 20000}, shards={"quick": 4, "thorough": 16}),
+         examples={"quick": 1500, "thorough": 60000}, shards={"quick": 4, "thorough": 16}),
 ]
